@@ -7,7 +7,10 @@ oracle : the multi-path differential.  Generated template sets are run, in one w
          each through render, render_unicode, render_context, get_def(n).render() for every def, and (default
          options, string data) the mako-render command (in-process cmdline() and the real executable).  Outputs,
          `source`, `code` (modulo the lines listed in CODE_MAY_DIFFER), has_def/list_defs/get_def must agree between
-         all paths and all seeds.  A history family runs multi-step sequences in ONE process (load through a module
+         all paths and all seeds.  A directory family gives every seed's worker lookups over 2-4 directories (absolute,
+         relative, duplicate spellings) with shadowed URIs: get_template, include / inherit / namespace and mako-render
+         with several --template-dir must serve "the first configured directory that contains it" (file, source, code,
+         defs, output), under every hash seed.  A history family runs multi-step sequences in ONE process (load through a module
          directory, edit the source, re-get, a second lookup with another root sharing the module directory, a fresh
          lookup) and requires after every step that the template just obtained answers source/code/defs/output for its
          own text (code = the module file on disk = the in-memory compile of the same text).  A second family puts several templates whose URIs differ only in non-word
@@ -742,6 +745,93 @@ def worker_case_B(case, root, resA):
     return res
 
 
+MD_URIS = ["/main.html", "/inc.html", "/base.html", "/lib.html", "/sub/leaf.html"]
+
+
+def md_text(d, u):
+    """the text of URI `u` in directory `d` names the directory, so every observation tells which file was served"""
+    if u == "/main.html":
+        return ("<%%inherit file=\"/base.html\"/><%%namespace name=\"n\" file=\"/lib.html\"/>MAIN@%s|<%%include file=\"/inc.html\"/>|${n.who()}"
+                "|<%%include file=\"/sub/leaf.html\"/><%%def name=\"dm()\">DEF@%s</%%def>" % (d, d))
+    if u == "/base.html":
+        return "BASE@%s[${self.body()}]" % d
+    if u == "/lib.html":
+        return "<%%def name=\"who()\">LIB@%s</%%def>" % d
+    return "%s@%s" % (u.strip("/").split(".")[0].split("/")[-1].upper(), d)
+
+
+def worker_mdcase(case, root):
+    """a lookup over several directories with shadowed URIs: which file is served, directly and through
+    include / inherit / namespace, and by mako-render with several --template-dir"""
+    from mako.lookup import TemplateLookup
+    base = os.path.join(root, "md%d" % case["id"])
+    for d, uris in case["present"].items():
+        for u in uris:
+            p_ = os.path.join(base, d, u.lstrip("/"))
+            os.makedirs(os.path.dirname(p_), exist_ok=True)
+            with open(p_, "wb") as f:
+                f.write(md_text(d, u).encode("utf-8"))
+    for d in case["order"]:
+        os.makedirs(os.path.join(base, d), exist_ok=True)
+    cwd = os.getcwd()
+    os.chdir(base)
+    res = {"id": case["id"], "obs": {}}
+    try:
+        dirs = [sp.replace("{ABS}", base) for sp in case["dirs"]]
+        kw = {"module_directory": os.path.join(base, "mods")} if case.get("module_directory") else {}
+        lk = TemplateLookup(dirs, **kw)
+        for u in case["uris"]:
+            def one(u=u):
+                t = lk.get_template(u)
+                o = {"file": os.path.relpath(os.path.realpath(t.filename), os.path.realpath(base)), "source": t.source,
+                     "code_tags": sorted(set(re.findall(r"@(d\d)", t.code))), "list_defs": t.list_defs(),
+                     "render_unicode": outcome(lambda: t.render_unicode(), root), "render": outcome(lambda: t.render(), root)}
+                if u == "/main.html":
+                    o["get_def"] = outcome(lambda: t.get_def("dm").render_unicode(), root)
+                return o
+            try:
+                res["obs"][u] = one()
+            except Exception as e:       # noqa: BLE001
+                res["obs"][u] = {"exc": [type(e).__name__, canon_msg(str(e), root)]}
+            res["obs"][u]["has_template"] = lk.has_template(u)
+        if case.get("cli_input"):
+            argv = []
+            for d in dirs:
+                argv += ["--template-dir", d]
+            fake = {"data": {}}
+            for real in ([False, True] if case.get("cli_real") else [False]):
+                # run_cli adds its own --template-dir: give it the first configured directory again (a duplicate)
+                got = run_cli_md(argv + [case["cli_input"]], real)
+                res["obs"]["mako-render" + ("(exe)" if real else "")] = got
+    finally:
+        os.chdir(cwd)
+    return res
+
+
+def run_cli_md(argv, real):
+    if real:
+        env = dict(os.environ)
+        env["PYTHONIOENCODING"] = "utf-8"
+        exe = os.path.join(os.path.dirname(sys.executable), "mako-render")
+        cmd = [sys.executable, exe] if os.path.exists(exe) else [sys.executable, "-m", "mako.cmd"]
+        p = subprocess.run(cmd + argv, stdout=subprocess.PIPE, stderr=subprocess.PIPE, env=env, timeout=120)
+        if p.returncode == 0:
+            return ["ok", p.stdout.decode("utf-8")]
+        return ["exc", p.stderr.decode("utf-8", "replace").strip().split("\n")[-1].split(":")[0].strip(), None]
+    import io
+    from mako import cmd as mcmd
+    so, se = sys.stdout, sys.stderr
+    sys.stdout, sys.stderr = io.StringIO(), io.StringIO()
+    try:
+        try:
+            mcmd.cmdline(argv)
+            return ["ok", sys.stdout.getvalue()]
+        except SystemExit:
+            return ["exc", sys.stderr.getvalue().strip().split("\n")[-1].split(":")[0].strip(), None]
+    finally:
+        sys.stdout, sys.stderr = so, se
+
+
 def worker_main(jobfile):
     job = json.load(open(jobfile))
     sys.path.insert(0, job["repo"])
@@ -765,8 +855,16 @@ def worker_main(jobfile):
         if job["phase"] == "A" and not job.get("keep_ref_code", True) and "ref" in r:
             pass
         out.append(r)
+    md = []
+    if job["phase"] == "A":
+        for case in job.get("mdcases") or []:
+            try:
+                md.append(worker_mdcase(case, job["root"]))
+            except Exception:       # noqa: BLE001
+                import traceback
+                md.append({"id": case["id"], "crash": traceback.format_exc()[-3000:], "obs": {}})
     with open(job["out"], "w") as f:
-        json.dump({"seed": job["seed"], "hashseed_env": os.environ.get("PYTHONHASHSEED"), "results": out}, f)
+        json.dump({"seed": job["seed"], "hashseed_env": os.environ.get("PYTHONHASHSEED"), "results": out, "md": md}, f)
 
 
 if __name__ == "__main__" and len(sys.argv) == 3 and sys.argv[1] == "--worker":
@@ -788,11 +886,12 @@ def unL(f):
     return [] if f == "[]" else [dec(x) for x in f.split("/")]
 
 
-def spawn(phase, seed, cases, root, prev=None):
+def spawn(phase, seed, cases, root, prev=None, mdcases=None):
     os.makedirs(root, exist_ok=True)
     jobfile = os.path.join(root, "job%s.json" % phase)
     out = os.path.join(root, "out%s.json" % phase)
-    job = {"phase": phase, "root": root, "cases": cases, "repo": REPO, "seed": seed, "out": out, "prev": prev}
+    job = {"phase": phase, "root": root, "cases": cases, "repo": REPO, "seed": seed, "out": out, "prev": prev,
+           "mdcases": mdcases or []}
     with open(jobfile, "w") as f:
         json.dump(job, f)
     env = dict(os.environ)
@@ -804,17 +903,22 @@ def spawn(phase, seed, cases, root, prev=None):
     return p, out
 
 
-def run_seeds(cases, seeds, base, tag="r", phase_b=True):
+MD_OUT = {}      # seed -> multi-directory observations of the last run_seeds(…, mdcases=…) call
+
+
+def run_seeds(cases, seeds, base, tag="r", phase_b=True, mdcases=None):
     """phase A for all seeds in parallel, then phase B (fresh processes).  -> {seed: (resultsA, resultsB)}"""
     procs = {}
     for s in seeds:
-        procs[s] = spawn("A", s, cases, os.path.join(base, "%s_seed_%s" % (tag, s)))
+        procs[s] = spawn("A", s, cases, os.path.join(base, "%s_seed_%s" % (tag, s)), mdcases=mdcases)
     outA = {}
     for s, (p, out) in procs.items():
         _, err = p.communicate(timeout=3000)
         if p.returncode != 0:
             raise RuntimeError("worker A seed %s failed: %s" % (s, err.decode()[-2000:]))
         outA[s] = out
+        if mdcases:
+            MD_OUT[s] = json.load(open(out)).get("md", [])
     if not phase_b:
         return {s: (json.load(open(outA[s]))["results"], [{"id": c["id"], "diffs": [], "paths": []} for c in cases])
                 for s in seeds}
@@ -1047,7 +1151,15 @@ def oracle_differential(ctx, base):
     st = ctx.stream("oracle.paths", "oracle")
     st2 = ctx.stream("oracle.hashseeds", "oracle")
     t0 = time.time()
-    res = run_seeds(cases, seeds, base)
+    mdcases = [gen_mdcase(ctx.rng, i) for i in range(30 if quick else 300)]
+    for c in mdcases[:: (6 if quick else 30)]:
+        c["cli_real"] = True
+    res = run_seeds(cases, seeds, base, mdcases=mdcases)
+    try:
+        oracle_multidir(ctx, mdcases, MD_OUT, seeds)
+    except Exception as e:        # noqa: BLE001
+        import traceback
+        ctx.broke("oracle.directories:harness-exception", traceback.format_exc())
     ctx.log("differential: %d template sets x %d seeds x 2 phases in %.1fs" % (len(cases), len(seeds), time.time() - t0))
     by_id = {c["id"]: c for c in cases}
     found = {}        # site -> (case, detail, seeds)
@@ -1593,6 +1705,184 @@ def oracle_lookup(ctx, base):
     ctx.sample({"stream": "oracle.one_lookup", "uris": ["/a-b.html", "/a_b.html"], "asked": "source, code, output, list_defs of each"})
 
 
+
+# =========================================================================================== oracle: several directories
+
+DIR_SPELL = ["{ABS}/%s", "%s", "%s/", "./%s", "{ABS}/%s/", "{ABS}/./%s", "%s/../%s"]
+
+
+def gen_mdcase(rng, cid):
+    k = rng.randint(2, 4)
+    tags = ["d%d" % i for i in range(1, k + 1)]
+    rng.shuffle(tags)
+    order = list(tags)
+    if rng.random() < 0.4:
+        order.insert(rng.randrange(len(order) + 1), rng.choice(tags))          # a directory listed twice
+    dirs = []
+    for d in order:
+        sp = rng.choice(DIR_SPELL)
+        dirs.append(sp % ((d, d) if sp.count("%s") == 2 else d))
+    present = {d: [] for d in tags}
+    for u in MD_URIS:
+        holders = rng.sample(tags, rng.randint(1, k))
+        if u != "/sub/leaf.html" and rng.random() < 0.7 and len(holders) < 2:
+            holders = rng.sample(tags, 2)                                       # shadowed
+        for d in holders:
+            present[d].append(u)
+    uris = list(MD_URIS) + ["main.html", "//inc.html", "/sub/../base.html", "/nosuch.html"]
+    case = {"id": cid, "dirs": dirs, "order": order, "present": present, "uris": uris,
+            "module_directory": rng.random() < 0.3}
+    case["cli_input"] = "%s/main.html" % md_first(case, "/main.html")
+    return case
+
+
+def md_first(case, u):
+    """ground truth, no mako involved: the first CONFIGURED directory that contains the URI"""
+    import posixpath
+    key = "/" + posixpath.normpath(u.replace("\\", "/").lstrip("/"))
+    for d in case["order"]:
+        if key in case["present"][d]:
+            return d
+    return None
+
+
+def md_expected(case, u, main_dir=None):
+    import posixpath
+    key = "/" + posixpath.normpath(u.lstrip("/"))
+    d = md_first(case, u)
+    if d is None:
+        return None
+    if key == "/main.html":
+        d = main_dir or d
+        return {"file": "%s/main.html" % d, "dir": d,
+                "render": "BASE@%s[MAIN@%s|INC@%s|LIB@%s|LEAF@%s]" % (md_first(case, "/base.html"), d, md_first(case, "/inc.html"),
+                                                                  md_first(case, "/lib.html"), md_first(case, "/sub/leaf.html")),
+                "get_def": "DEF@%s" % d, "list_defs": ["body", "dm"]}
+    if key == "/base.html":
+        return {"file": "%s%s" % (d, key), "dir": d, "render": None, "list_defs": ["body"]}
+    if key == "/lib.html":
+        return {"file": "%s%s" % (d, key), "dir": d, "render": "", "list_defs": ["body", "who"]}
+    return {"file": "%s%s" % (d, key), "dir": d, "render": md_text(d, key), "list_defs": ["body"]}
+
+
+def md_check(case, obs):
+    """observations of one worker against the ground truth -> list of (what, expected, got)"""
+    bad = []
+    for u in case["uris"]:
+        o = obs.get(u)
+        want = md_expected(case, u)
+        if o is None:
+            bad.append((u, "observed", None))
+            continue
+        if want is None:
+            if "exc" not in o or o["exc"][0] != "TopLevelLookupException" or o.get("has_template"):
+                bad.append(("get_template(%s)" % u, "TopLevelLookupException", o.get("exc") or o.get("file")))
+            continue
+        if "exc" in o:
+            bad.append(("get_template(%s)" % u, want["file"], o["exc"]))
+            continue
+        if o["file"] != want["file"]:
+            bad.append(("get_template(%s).filename" % u, want["file"], o["file"]))
+        if o["source"] != md_text(want["dir"], "/" + want["file"].split("/", 1)[1]):
+            bad.append(("get_template(%s).source" % u, "the text of " + want["file"], o["source"][:60]))
+        if want["dir"] not in o["code_tags"]:
+            bad.append(("get_template(%s).code" % u, "the module of " + want["file"], o["code_tags"]))
+        if o["list_defs"] != want["list_defs"] or not o.get("has_template"):
+            bad.append(("get_template(%s).list_defs" % u, want["list_defs"], o["list_defs"]))
+        if want["render"] is not None:
+            for k in ("render_unicode", "render"):
+                if o[k] != ["ok", want["render"]]:
+                    bad.append(("get_template(%s).%s()" % (u, k), want["render"], o[k]))
+        if "get_def" in want and o.get("get_def") != ["ok", want["get_def"]]:
+            bad.append(("get_template(%s).get_def('dm').render()" % u, want["get_def"], o.get("get_def")))
+    for k in ("mako-render", "mako-render(exe)"):
+        if k in obs:
+            w = md_expected(case, "/main.html", main_dir=case["cli_input"].split("/")[0])["render"]
+            if obs[k] != ["ok", w]:
+                bad.append((k + " --template-dir x%d" % len(case["dirs"]), w, obs[k]))
+    return bad
+
+
+def oracle_multidir(ctx, cases, outs, seeds):
+    """outs: {seed: md results}.  every seed must agree with the ground truth, hence with each other"""
+    st = ctx.stream("oracle.directories", "oracle")
+    worst = None
+    for c in cases:
+        per_seed = {}
+        for s in seeds:
+            r = next((x for x in outs[s] if x["id"] == c["id"]), None)
+            if r is None or "crash" in r:
+                ctx.broke("worker-crash", (r or {}).get("crash", "no result"))
+                continue
+            st["cases"] += len(r["obs"])
+            per_seed[s] = (r["obs"], md_check(c, r["obs"]))
+        ctx.branch("directories:%d" % len(c["dirs"]))
+        if len(set(c["dirs"])) < len(c["dirs"]) or len(set(c["order"])) < len(c["order"]):
+            ctx.branch("directories:duplicate")
+        for u in MD_URIS:
+            if sum(1 for d in c["present"] if u in c["present"][d]) > 1:
+                ctx.branch("directories:shadowed:" + u)
+        bads = {s: b for s, (o, b) in per_seed.items() if b}
+        if not bads:
+            continue
+        differ = len({json.dumps(o, sort_keys=True) for o, _ in per_seed.values()}) > 1
+        cand = (len(c["dirs"]), c, bads, differ)
+        if worst is None or cand[0] < worst[0]:
+            worst = cand
+    if worst:
+        _, c, bads, differ = worst
+        s0 = sorted(bads)[0]
+        what, want, got = bads[s0][0]
+        ctx.violation("hashseed-lookup-directory-order" if differ else "lookup-directory-order",
+                      {"input": c["dirs"], "mdcase": c, "hashseeds": sorted(bads), "seeds_disagree": differ},
+                      {"what": what, "expected (first configured directory that contains it)": want, "got": got,
+                       "hashseed": s0, "seeds_with_a_wrong_answer": sorted(bads), "seeds_run": seeds}, "oracle.directories")
+    ctx.sample({"stream": "oracle.directories", "dirs": cases[0]["dirs"], "present": cases[0]["present"],
+                "asked": "file/source/code/defs/output of every URI (direct, include, inherit, namespace), mako-render"})
+
+
+def corr_search(ctx):
+    """the probe order of the real get_template (os.path.isfile patched) against the model's lookupFile"""
+    import posixpath
+    import mako.lookup as LK
+    from mako import exceptions as X
+    drv = ctx.driver()
+    st = ctx.stream("corr.directory_search")
+    reqs, wants = [], []
+    orig = LK.os.path.isfile
+    try:
+        for _ in range(400 if ctx.quick else 6000):
+            names = ["/srv/a", "/srv/b/", "rel/c", "/srv/./a", "/srv/b", ".", "/srv/a/../d"]
+            dirs = [ctx.rng.choice(names) for _ in range(ctx.rng.randint(1, 5))]
+            uri = ctx.rng.choice(["/x.html", "x.html", "//sub/x.html", "/sub/../x.html", "\\x.html"])
+            cand = sorted({posixpath.normpath(posixpath.join(posixpath.normpath(d), re.sub(r"^/+", "", uri.replace("\\", "/")))) for d in names})
+            files = [f for f in cand if ctx.rng.random() < 0.4]
+            hit = []
+
+            def fake(p_, files=files, hit=hit):
+                if p_ in files:
+                    hit.append(p_)
+                    return True
+                return False
+            LK.os.path.isfile = fake
+            lk = LK.TemplateLookup(dirs)
+            lk._load = lambda filename, uri_: filename
+            try:
+                got = lk.get_template(uri)
+            except X.TopLevelLookupException:
+                got = None
+            reqs.append("p8 search %s %s %s" % (L(dirs), L(files), enc(uri)))
+            wants.append((dirs, files, uri, got))
+    finally:
+        LK.os.path.isfile = orig
+    for (dirs, files, uri, got), o in zip(wants, drv.ask_many(reqs)):
+        st["cases"] += 1
+        model = None if o == "none" else dec(o)
+        ctx.branch("search:" + ("hit" if got else "miss"))
+        if model != got:
+            ctx.disagree("corr.directory_search", {"input": uri, "dirs": dirs, "files": files}, model, got)
+
+
 # =========================================================================================== oracle: histories in ONE process
 
 def hist_text(k):
@@ -1761,6 +2051,7 @@ def run(ctx):
             corr_kwargs(ctx)
             corr_registry(ctx)
             corr_defs_header(ctx)
+            corr_search(ctx)
         finally:
             try:
                 oracle_lookup(ctx, base)
@@ -1784,6 +2075,23 @@ def replay(ctx, data):
     print("replaying", json.dumps(case, ensure_ascii=False)[:1000])
     base = tempfile.mkdtemp(prefix="c08r_")
     try:
+        if isinstance(case, dict) and "mdcase" in case:
+            c = case["mdcase"]
+            seeds = ["0", "1", "2", "3", "4", "5"]
+            run_seeds([], seeds, base, phase_b=False, mdcases=[c])
+            ok = True
+            for s_ in seeds:
+                for what, want, got in md_check(c, MD_OUT[s_][0]["obs"]):
+                    ok = False
+                    print("hashseed %s: %s: expected %r got %r" % (s_, what, want, got))
+            try:
+                import posixpath
+                print("model: lookupFile serves /main.html from", ctx.driver().ask("p8 search %s %s %s" % (
+                    L(["/r/" + d for d in c["order"]]), L(["/r/%s/main.html" % d for d in c["present"] if "/main.html" in c["present"][d]]),
+                    enc("/main.html"))))
+            except Exception as e:        # noqa: BLE001
+                print("model not available:", e)
+            return ok
         if isinstance(case, dict) and "history" in case:
             bad = run_history(case["history"], base, "replay")
             print("impl :", bad or "every step answers for its own text")
